@@ -151,3 +151,31 @@ package clickhouse_transpiler
 //@   flag checks=-index,-assert
 //@   at sql_select.Ge lower-date-covers-window-start: isDateCol(arg0) ==> fmtDay <= fdiv(ctx.From.UnixNano(), 86400000000000)
 //@   at sql_select.Le upper-date-covers-window-end: isDateCol(arg0) ==> fmtDay >= fdiv(ctx.To.UnixNano(), 86400000000000)
+
+// `{a} && {b} && {c}`: a selector joined with && opens a group, and the selectors
+// that follow are planned inside the group that was just opened - not inside
+// whatever happens to be the first operand, where they would be lost (a simple
+// selector ignores operands added to it).
+// Ghost: the operand added last and the planner it was added to (assumed of the
+// three implementations of iExpressionPlanner: operands() of that planner ends with it).
+//@ ghost var lastAdded iExpressionPlanner
+//@ ghost var lastAddedTo iExpressionPlanner
+//@ iface (iExpressionPlanner).addOp(selector)
+//@   ghostset lastAdded = selector
+//@   ghostset lastAddedTo = recv
+//@   modifies lastAdded, lastAddedTo, allof(complexExpressionPlanner._operands), allof(rootExpressionPlanner.operand)
+//@ iface (iExpressionPlanner).setOps(selector)
+//@   requires len(selector) == 1
+//@   ghostset lastAdded = selector[0]
+//@   ghostset lastAddedTo = recv
+//@   modifies lastAdded, lastAddedTo, allof(complexExpressionPlanner._operands), allof(rootExpressionPlanner.operand)
+//@ iface (iExpressionPlanner).operands()
+//@   modifies nothing
+//@   ensures recv == lastAddedTo && !typeis(recv, "*simpleExpressionPlanner") ==> len(result) > 0 && result[len(result) - 1] == lastAdded
+//@   ensures typeis(recv, "*rootExpressionPlanner") ==> len(result) == 1
+//@ func (*planner).getPrefix
+//@   modifies nothing
+//@ func (*planner).planComplex [C11]
+//@   flag checks=-index,-assert
+//@   requires typeis(root, "*rootExpressionPlanner") && !typeis(current, "*simpleExpressionPlanner")
+//@   at planComplex group-continues-in-the-operand-just-added: script.AndOr == "&&" ==> arg1 == lastAdded && typeis(arg1, "*complexExpressionPlanner")
